@@ -25,3 +25,10 @@ def run(ctx):
     sig.s02_8_every_binding_verified(ctx, P)
     from rules.tables import lossless_bool_subpackets
     lossless_bool_subpackets(ctx, P)
+    # the digest covers what it must (shared with C11 / C16): sign/verify twins feed the same frames, every hashed subpacket is fed,
+    # and the cleartext framework signs and verifies one derived form whose trim set is {SP, TAB}
+    from rules import c11, c16
+    c11.twins(ctx, P)
+    c11.hashed_subpackets_all_fed(ctx, P)
+    c16.same_form(ctx, P)
+    c16.trim_set(ctx, P)
